@@ -35,10 +35,12 @@ structure Fixes where
   d : Bool
   /-- K09e: telemetry is flushed with a context of its own when the budget is used up -/
   e : Bool
+  /-- K09g: a failed start-up writes the buffered startup logs out -/
+  g : Bool
   deriving DecidableEq, Repr
 
-def asShipped : Fixes := ⟨false, false, false, false, false⟩
-def repaired : Fixes := ⟨true, true, true, true, true⟩
+def asShipped : Fixes := ⟨false, false, false, false, false, false⟩
+def repaired : Fixes := ⟨true, true, true, true, true, true⟩
 
 /-! ### executeStartHooks -/
 
@@ -268,12 +270,16 @@ structure Run where
   res : Res
   finApp : Bool
   finMet : Bool
+  /-- the startup log buffer (`logging.StartBuffering` in `New`, flushed by the serving goroutine after
+      the banner) still holds what was logged during start-up -/
+  finHeld : Bool
   reqs : List ReqRes
   rounds : List RRes
   deriving Repr
 
 def Run.obs (r : Run) : Obs :=
-  { log := r.segs.log, res := r.res, finApp := r.finApp, finMet := r.finMet, reqs := r.reqs, rounds := r.rounds }
+  { log := r.segs.log, res := r.res, finApp := r.finApp, finMet := r.finMet, finHeld := r.finHeld,
+    reqs := r.reqs, rounds := r.rounds }
 
 /-- what the shutdown sequence of `runServer` adds to a run -/
 structure Tail where
@@ -320,7 +326,8 @@ def shutdownTail (fx : Fixes) (sc : Scenario) (race sent : Bool) : Tail :=
 def shutdownSeq (fx : Fixes) (sc : Scenario) (race sent : Bool) (s : Segs) (rres : List RRes) : Run :=
   let t := shutdownTail fx sc race sent
   { segs := { s with shuts := t.shuts, drain := t.drain, flush := t.flush, stops := t.stops },
-    res := t.res, finApp := t.finApp, finMet := t.finMet, reqs := t.reqs, rounds := rres }
+    -- the serving goroutine flushed the startup logs before it signalled readiness
+    res := t.res, finApp := t.finApp, finMet := t.finMet, finHeld := false, reqs := t.reqs, rounds := rres }
 
 /-- `App.Start` in the environment of the harness, segment by segment. -/
 def runSegs (fx : Fixes) (sc : Scenario) (race : Bool) : Run :=
@@ -328,17 +335,19 @@ def runSegs (fx : Fixes) (sc : Scenario) (race : Bool) : Run :=
   let st := startHooks met 0 false sc.starts
   match st.out with
   | .panicked =>
-    { segs := { starts := st.evs }, res := .panic, finApp := false, finMet := met,
+    { segs := { starts := st.evs }, res := .panic, finApp := false, finMet := met, finHeld := true,
       reqs := naReqs sc, rounds := naRounds sc }
   | .failed =>
     { segs := { starts := st.evs, flush := abortObs fx sc }, res := .errStartup, finApp := false,
-      finMet := met && !fx.b, reqs := naReqs sc, rounds := naRounds sc }
+      finMet := met && !fx.b, finHeld := !fx.g, reqs := naReqs sc, rounds := naRounds sc }
   | .done =>
     if sc.listen != .ok then
       -- K09a: as shipped, readiness is signalled before ListenAndServe has bound the socket
       let rd := if fx.a then [] else readyHooks false met 0 sc.readies
+      -- (as shipped the serving goroutine had flushed the startup logs before the listen failed)
       { segs := { starts := st.evs, readies := rd, flush := abortObs fx sc }, res := .errListen,
-        finApp := false, finMet := met && !fx.b, reqs := naReqs sc, rounds := naRounds sc }
+        finApp := false, finMet := met && !fx.b, finHeld := fx.a && !fx.g, reqs := naReqs sc,
+        rounds := naRounds sc }
     else
       let rd := readyHooks true met 0 sc.readies
       if st.cancelled then
@@ -349,7 +358,8 @@ def runSegs (fx : Fixes) (sc : Scenario) (race : Bool) : Run :=
         let s : Segs := { starts := st.evs, readies := rd, reqIns := reqIns 0 sc.reqs, reloads := lp.pre }
         if lp.dead then
           -- K09d: the panic of a reload hook leaves Reload, the select loop, runServer and Start
-          { segs := s, res := .panic, finApp := true, finMet := met, reqs := naReqs sc, rounds := lp.res }
+          { segs := s, res := .panic, finApp := true, finMet := met, finHeld := false, reqs := naReqs sc,
+            rounds := lp.res }
         else
           shutdownSeq fx sc race true { s with sig := sigIf (!lp.cancelled), post := lp.post } lp.res
 
